@@ -58,7 +58,7 @@ func RunHandlers(e *Env) {
 	R.Rule = "seeded workloads of 1-4 clients (own manager = own connection) per server, n in 1..5, mixing handler scripts (plain, release early, release 100x, release from a helper goroutine, release concurrently from 4 goroutines, " +
 		"hold until gate, release early and reply late, release then run long) over all two-way and one-way methods; online monitor in the puppet handler: per connection the count of handlers entered and not yet released must be exactly 1 at entry " +
 		"(decremented immediately before the handler releases or returns, so a correct server cannot be flagged); directed sub-cases: a never-releasing handler delays only its own connection (a second client completes K calls meanwhile, the first client's next request has not entered), " +
-		"after the release the queued handler starts (hang rule), replies of released handlers reach the right call (token check); distinct = case parameters; non-trivial = >=2 scripts or >=2 clients"
+		"after the release the queued handler starts (hang rule), replies of released handlers reach the right call (token check); released handlers that outlive their client's connections (manager closed while they run, then they reply) while a second client keeps being served; distinct = case parameters; non-trivial = >=2 scripts or >=2 clients"
 	R.Assume("the monitor's decrement precedes the unlock and its increment follows the server's lock acquisition, hence no false alarm on a correct server")
 	rng := e.Rand(4)
 	ncase := e.Pick(400, 40000)
@@ -71,6 +71,108 @@ func RunHandlers(e *Env) {
 		}
 		runHandlerCase(e, i, rand.New(rand.NewSource(rng.Int63())))
 	}
+	for rep := 0; rep < e.Pick(6, 60); rep++ {
+		if e.Of > 1 && rep%e.Of != e.Batch {
+			continue
+		}
+		if R.NumViolations() > 10 {
+			break
+		}
+		runReleasedOutlivesClient(e, rep)
+	}
+}
+
+// runReleasedOutlivesClient: handlers of client A release early and go on running; A's manager is closed (its connections end)
+// while they run; then they reply. Nothing of that may concern client B, which keeps calling the same servers throughout and
+// afterwards (a crash of the server side ends this process and is reported by the parent as a crash inside the library).
+func runReleasedOutlivesClient(e *Env, rep int) {
+	R := e.R
+	n := 1 + rep%3
+	cl, err := h.NewCluster(h.Options{N: n, Block: true, DialTimeout: 2 * time.Second})
+	if err != nil {
+		R.Inconc("cluster: " + err.Error())
+		return
+	}
+	defer cl.Close()
+	var late atomic.Int64
+	cl.SetBehaviour(func(c *h.HCall) (*puppet.Rep, error) {
+		if c.Req.GetKind() == 41 {
+			c.Ctx.Release()
+			time.Sleep(time.Duration(10+c.E.Serial%10) * time.Millisecond) // the client is gone by the time this reply is sent
+			late.Add(1)
+			if c.Send != nil {
+				c.Send(c.Rep(0))
+				c.Send(c.Rep(1))
+				return nil, nil
+			}
+		}
+		return c.Rep(0), nil
+	})
+	stop := make(chan struct{})
+	var bCalls, bFailed atomic.Int64
+	tb := h.Go("c04:client-B", func() {
+		for {
+			select {
+			case <-stop:
+				return
+			default:
+			}
+			tok := h.NewToken()
+			ctx, cancel := context.WithTimeout(context.Background(), 3*time.Second)
+			rep, err := cl.Node(int(tok)%n).RPC(ctx, &puppet.Req{Call: tok, Seq: tok, Kind: 4})
+			cancel()
+			bCalls.Add(1)
+			if err != nil || rep.GetCall() != tok {
+				bFailed.Add(1)
+			}
+			time.Sleep(200 * time.Microsecond)
+		}
+	})
+	for round := 0; round < 8; round++ {
+		qs := &h.QSpec{}
+		ma := puppet.NewManager(cl.MgrOptions()...)
+		cfgA, err := ma.NewConfiguration(gorums.WithNodeMap(cl.NodeMap()), qs)
+		if err != nil {
+			R.Inconc("client A: " + err.Error())
+			break
+		}
+		for k := 0; k < 3; k++ {
+			tok := h.NewToken()
+			req := &puppet.Req{Call: tok, Seq: tok, Kind: 41}
+			qs.Register(&h.CallMon{Token: tok, Orig: req, Decide: func(inv *h.Inv) (bool, int) { return false, len(inv.Keys) }})
+			ctx, cancel := context.WithTimeout(context.Background(), 2*time.Second)
+			defer cancel()
+			m := []string{"QC", "Async", "CorrStream"}[(round+k)%3]
+			go func() {
+				if w := Invoke(cl, cfgA, &Op{Method: m}, ctx, req); w != nil {
+					w()
+				}
+			}()
+		}
+		time.Sleep(3 * time.Millisecond) // the handlers have released and are running
+		tcl := h.Go("c04:close-A", func() { ma.Close() })
+		h.Await(tcl, e.W)
+		time.Sleep(25 * time.Millisecond) // the released handlers reply to a connection that is gone
+	}
+	close(stop)
+	h.Await(tb, e.W+3*time.Second)
+	// B is served afterwards as well
+	ok := 0
+	for k := 0; k < 5; k++ {
+		tok := h.NewToken()
+		ctx, cancel := context.WithTimeout(context.Background(), 3*time.Second)
+		rep, err := cl.Node(k%n).RPC(ctx, &puppet.Req{Call: tok, Seq: tok, Kind: 4})
+		cancel()
+		if err == nil && rep.GetCall() == tok {
+			ok++
+		}
+	}
+	if bFailed.Load() > 0 || ok < 5 {
+		R.Violate("other-client-disturbed-by-released-handlers", fmt.Sprintf("client B: %d of %d calls failed while released handlers of client A outlived A's connections, %d of 5 calls afterwards succeeded", bFailed.Load(), bCalls.Load(), ok), map[string]any{"n": n, "late_replies": late.Load()})
+	}
+	R.Eval(fmt.Sprintf("released-handler-outlives-client|n=%d|%d", n, rep), true)
+	R.Count("released_handlers_replying_after_their_client_was_closed", late.Load())
+	R.Count("calls_of_the_other_client_meanwhile", bCalls.Load())
 }
 
 func runHandlerCase(e *Env, idx int, rng *rand.Rand) {
